@@ -207,7 +207,7 @@ class AsyncTaskiqDecoratedTask(Generic[_FuncParams, _ReturnType]):
         return AsyncKicker(
             task_name=self.task_name,
             broker=self.broker,
-            labels=self.labels,
+            labels=dict(self.labels),
             return_type=self.return_type,
         )
 
